@@ -1,14 +1,228 @@
-//! C07 harness (stub).
+//! C07: index lookups report exact overlaps (no false negatives or positives).
+//!
+//! Request lines
+//!   case <i> coll <d0>;<d1>;…           d_i = comma separated ascending hashes; the three index types
+//!                                       (LinearIndex, mem RevIndex, disk RevIndex) are built over it
+//!   cnt lin|mem|disk <query>            counter_for_query -> `id:count,…` ascending in id (`-` = empty)
+//!   search lin|mem|disk <query> <t>     LinearIndex::search / mem RevIndex::search / disk
+//!                                       matches_from_counter -> `id:count,…` sorted by (count desc, id)
+//!                                       + ` ordered|unordered` (was the returned order non-increasing in
+//!                                       the count) ; every returned name/location must be dataset id's own
+//!   capi <query> <num> <k> <cont>       C API revindex_search with threshold num/2^k -> `id:scorebits,…`
+//!                                       sorted by (score desc, id) + order token
+use sourmash::ffi::index::revindex::{revindex_search, SourmashRevIndex};
+use sourmash::ffi::index::{searchresult_filename, searchresult_free, searchresult_score, searchresult_signature, SourmashSearchResult};
+use sourmash::ffi::signature::SourmashSignature;
+use sourmash::ffi::utils::ForeignObject;
+use sourmash::index::linear::LinearIndex;
+use sourmash::index::revindex::mem_revindex;
+use sourmash::index::revindex::{RevIndex, RevIndexOps};
+use sourmash::selection::Selection;
+use sourmash::signature::Signature;
+use verif_harness::index_util::*;
 use verif_harness::*;
 
-fn gen(_a: &Args) {
-    let mut o = Out::new();
-    o.case("stub");
+// ------------------------------------------------------------------------------------ generator
+
+fn show_coll(c: &[Vec<u64>]) -> String {
+    c.iter().map(|d| show_nats(d.iter().copied())).collect::<Vec<_>>().join(";")
 }
 
-fn step(_: &mut (), ws: &[&str]) -> String {
+fn subset(r: &mut Rng, u: &[u64], num: u64, den: u64) -> Vec<u64> {
+    u.iter().copied().filter(|_| r.chance(num, den)).collect()
+}
+
+fn gen(a: &Args) {
+    let mut r = Rng::new(a.seed);
+    let mut o = Out::new();
+    let thorough = a.tier == "thorough";
+    let n = if thorough { 4000 } else { 200 };
+    for ci in 0..n {
+        // a 64-hash universe; a few cases use hashes at the top of the u64 range
+        let base: u64 = if ci % 7 == 3 { u64::MAX - 63 } else if ci % 7 == 5 { (1 << 63) - 32 } else { r.below(1000) };
+        let usize_ = r.range(4, 64);
+        let u: Vec<u64> = (0..usize_).map(|i| base + i).collect();
+        let nd = r.range(1, 12) as usize;
+        let mut c: Vec<Vec<u64>> = vec![];
+        for i in 0..nd {
+            if i > 0 && r.chance(1, 5) {
+                let j = r.below(i as u64) as usize; // duplicate of a dataset
+                c.push(c[j].clone());
+                continue;
+            }
+            let num = r.range(1, 7);
+            let mut d = subset(&mut r, &u, num, 8);
+            if d.is_empty() {
+                d.push(*r.pick(&u));
+            }
+            c.push(d);
+        }
+        o.case(&format!("coll {}", show_coll(&c)));
+        let nq = if thorough { 6 } else { 4 };
+        for qi in 0..nq {
+            let q: Vec<u64> = match (qi + ci) % 6 {
+                0 => c[r.below(nd as u64) as usize].clone(), // a dataset itself
+                1 => {
+                    // disjoint from at least one dataset
+                    let d = &c[r.below(nd as u64) as usize];
+                    u.iter().copied().filter(|h| !d.contains(h) && r.chance(2, 3)).collect()
+                }
+                2 => u.clone(),
+                3 if r.chance(1, 3) => vec![],
+                _ => {
+                    let num = r.range(1, 7);
+                    subset(&mut r, &u, num, 8)
+                }
+            };
+            let qs = show_nats(q.iter().copied());
+            let maxov = c.iter().map(|d| d.iter().filter(|h| q.contains(h)).count()).max().unwrap_or(0) as u64;
+            for kind in ["lin", "mem", "disk"] {
+                o.op(&format!("cnt {} {}", kind, qs));
+            }
+            for kind in ["lin", "mem", "disk"] {
+                let t1 = r.range(0, maxov + 1);
+                o.op(&format!("search {} {} {}", kind, qs, t1));
+                let t2 = *r.pick(&[0, 1, maxov, maxov + 1]);
+                o.op(&format!("search {} {} {}", kind, qs, t2));
+            }
+            if !q.is_empty() {
+                let k = r.range(0, 4);
+                let num = r.range(0, 1 << k);
+                o.op(&format!("capi {} {} {} {}", qs, num, k, r.below(2)));
+            }
+        }
+    }
+}
+
+// ------------------------------------------------------------------------------------ exec
+
+#[derive(Default)]
+struct St {
+    coll: Vec<Vec<u64>>,
+    lin: Option<LinearIndex>,
+    mem: Option<mem_revindex::RevIndex>,
+    disk: Option<(RevIndex, tempfile::TempDir)>,
+}
+
+fn sigs_of(c: &[Vec<u64>]) -> Vec<Signature> {
+    c.iter().enumerate().map(|(i, d)| make_sig(&format!("d{}", i), d, None, 1)).collect()
+}
+
+fn show_counter<'a>(c: impl Iterator<Item = (&'a u32, &'a usize)>) -> String {
+    let mut v: Vec<(u32, usize)> = c.map(|(k, v)| (*k, *v)).collect();
+    v.sort_unstable();
+    if v.is_empty() {
+        "-".into()
+    } else {
+        v.iter().map(|(k, n)| format!("{}:{}", k, n)).collect::<Vec<_>>().join(",")
+    }
+}
+
+/// canonical form of a match list + whether the returned order was non-increasing in the key
+fn show_matches(ms: &[(u64, u64)], desc_key: impl Fn(u64) -> f64) -> String {
+    let ordered = ms.windows(2).all(|w| desc_key(w[0].1) >= desc_key(w[1].1));
+    let mut v = ms.to_vec();
+    v.sort_by(|a, b| desc_key(b.1).partial_cmp(&desc_key(a.1)).unwrap().then(a.0.cmp(&b.0)));
+    let body = if v.is_empty() {
+        "-".to_string()
+    } else {
+        v.iter().map(|(i, n)| format!("{}:{}", i, n)).collect::<Vec<_>>().join(",")
+    };
+    format!("{} {}", body, if ordered { "ordered" } else { "unordered" })
+}
+
+fn step(st: &mut St, ws: &[&str]) -> String {
     match ws[0] {
-        "case" => "ok".into(),
+        "case" => {
+            st.coll = ws[3].split(';').map(parse_nats).collect();
+            st.lin = Some(LinearIndex::from_collection(mem_collection(sigs_of(&st.coll))));
+            let sel = Selection::builder().ksize(KSIZE).scaled(1).build();
+            st.mem = Some(mem_revindex::RevIndex::new_with_sigs(sigs_of(&st.coll), &sel, 0, None).unwrap());
+            let tmp = scratch_dir();
+            let idx = RevIndex::create(tmp.path().join("idx"), mem_collection(sigs_of(&st.coll)), false).unwrap();
+            st.disk = Some((idx, tmp));
+            "ok".into()
+        }
+        "cnt" | "search" => {
+            let q = make_mh(&parse_nats(ws[2]), None, 1);
+            let counter = match ws[1] {
+                "lin" => st.lin.as_ref().unwrap().counter_for_query(&q),
+                "mem" => st.mem.as_ref().unwrap().counter_for_query(&q),
+                _ => st.disk.as_ref().unwrap().0.counter_for_query(&q),
+            };
+            if ws[0] == "cnt" {
+                return show_counter(counter.iter());
+            }
+            let t: usize = ws[3].parse().unwrap();
+            let count_of = |i: u64| -> u64 { counter.get(&(i as u32)).copied().unwrap_or(0) as u64 };
+            let ms: Vec<(u64, u64)> = match ws[1] {
+                "disk" => st
+                    .disk
+                    .as_ref()
+                    .unwrap()
+                    .0
+                    .matches_from_counter(counter.clone(), t)
+                    .into_iter()
+                    .map(|(name, size)| {
+                        // the record's own name is d<id>
+                        let i: u64 = name.strip_prefix('d').unwrap().parse().unwrap();
+                        assert_eq!(count_of(i), size as u64);
+                        (i, size as u64)
+                    })
+                    .collect(),
+                kind => {
+                    let locs = if kind == "lin" {
+                        st.lin.as_ref().unwrap().search(counter.clone(), false, t).unwrap()
+                    } else {
+                        st.mem.as_ref().unwrap().search(counter.clone(), false, t).unwrap()
+                    };
+                    // Collection::from_sigs stores dataset i at internal location "i"
+                    locs.into_iter()
+                        .map(|l| {
+                            let i: u64 = l.parse().unwrap();
+                            (i, count_of(i))
+                        })
+                        .collect()
+                }
+            };
+            show_matches(&ms, |n| n as f64)
+        }
+        "capi" => {
+            let qsig = make_sig("query", &parse_nats(ws[1]), None, 1);
+            let (num, k): (u64, u32) = (ws[2].parse().unwrap(), ws[3].parse().unwrap());
+            let threshold = num as f64 / (1u64 << k) as f64;
+            let cont = ws[4] == "1";
+            let mut ms: Vec<(u64, u64)> = vec![];
+            unsafe {
+                let idx_ptr = SourmashRevIndex::from_ref(st.mem.as_ref().unwrap());
+                let sig_ptr = SourmashSignature::from_ref(&qsig);
+                let mut size: usize = 0;
+                let res = revindex_search(idx_ptr, sig_ptr, threshold, cont, true, &mut size);
+                if res.is_null() {
+                    if size != 0 {
+                        return "err".into();
+                    }
+                } else {
+                    let items: Box<[*const SourmashSearchResult]> =
+                        Box::from_raw(std::ptr::slice_from_raw_parts_mut(res as *mut *const SourmashSearchResult, size));
+                    for p in items.iter() {
+                        let score = searchresult_score(*p);
+                        let mut f = searchresult_filename(*p);
+                        let i: u64 = f.as_str().parse().unwrap();
+                        f.free();
+                        let sp = searchresult_signature(*p);
+                        let name = SourmashSignature::as_rust(sp).name();
+                        assert_eq!(name, format!("d{}", i));
+                        let mh = SourmashSignature::as_rust(sp).minhash().unwrap().mins();
+                        assert_eq!(mh, st.coll[i as usize]);
+                        SourmashSignature::drop(sp);
+                        ms.push((i, score.to_bits()));
+                        searchresult_free(*p as *mut SourmashSearchResult);
+                    }
+                }
+            }
+            show_matches(&ms, f64::from_bits)
+        }
         _ => "bad-op".into(),
     }
 }
@@ -17,7 +231,7 @@ fn main() {
     let a = args();
     match a.mode.as_str() {
         "gen" => gen(&a),
-        "exec" => exec_loop(|| (), step),
+        "exec" => exec_loop(St::default, step),
         _ => panic!("mode"),
     }
 }
